@@ -5,7 +5,7 @@
    are universally quantified. The repair flags of the model are the values
    regenerated from chunk.go: drop_stream_on_invalid_chunk,
    first_chunk_validated_before_discard (Gen/GenC15.v). *)
-From DB Require Import Base.Bytes Model.Chunks Proofs.Chunks Proofs.ChunksFrame Proofs.ChunksSplit.
+From DB Require Import Base.Bytes Model.Chunks Proofs.Chunks Proofs.ChunksFrame Proofs.ChunksSplit Proofs.ChunksInv.
 Open Scope N_scope.
 
 (* a chunk with a foreign deployment id or binary version is ignored: the state is unchanged *)
@@ -58,7 +58,8 @@ Theorem in_order_delivery_reassembles :
 Proof. exact in_order_delivery_gen. Qed.
 Print Assumptions in_order_delivery_reassembles.
 
-(* PARTIAL (finalize_iff_complete_valid_sequence). Proved: in every step of every run the
+(* SUPERSEDED by finalize_iff_complete_valid_sequence below (kept: it is the step-level
+   form used by one_notification_per_finalized_snapshot). Proved: in every step of every run the
    set of final directories and the list of delivered messages change only when a chunk is
    accepted that is the last chunk of its stream, the snapshot was not finalised before,
    and then exactly one final directory and one message (its flag file) are added. With
@@ -79,6 +80,57 @@ Theorem finalize_iff_complete_valid_sequence_partial :
                   s_out st' = n :: s_out st /\ fd_flag fd = n).
 Proof. exact finalize_step_gen. Qed.
 Print Assumptions finalize_iff_complete_valid_sequence_partial.
+
+(* finalize_iff_complete_valid_sequence, FULL statement, over ALL operation sequences of the
+   receiver model (chunks of any number of snapshots and senders in any interleaving,
+   duplicates, gaps, out-of-order and foreign chunks, ticks with gc, replica removal, Close).
+
+   ONLY IF. In every state reachable from the initial one, every final directory [fd] of
+   snapshot [k] comes with a list [acc] of chunks that (a) is a subsequence of the chunks
+   delivered so far, in delivery order, and (b) is a complete valid sequence ([complete]):
+   it starts with chunk 0, chunk ids are 0,1,..,n-1, all chunks carry key k, the sender,
+   deployment id and binary version of the first, only the last one is a last chunk, the
+   validator accepted every main-file chunk in turn and the whole ([vfold] = Some v,
+   vfinal v = true), and the final directory holds EXACTLY what these chunks wrote
+   ([replay]: per file name the concatenation of the chunk data in order) with the flag
+   file / InstallSnapshot message built from chunk 0 and the file infos.
+
+   IF. From any reachable state that holds nothing of the snapshot and has a free slot
+   ([clean]), when the chunks of a complete valid sequence arrive in order with arbitrary
+   other traffic in between ([delivers]/[noise]: chunks of other snapshots whatever their
+   fate, foreign chunks, chunks of this snapshot that are neither chunk 0 nor the next
+   expected chunk of this sender - duplicates, gaps, out of order, other senders -, ticks,
+   removal of other replicas) and fewer than [timeout] ticks pass, then, unless the
+   receiver panicked on some other chunk, the snapshot is finalised with exactly the bytes
+   the chunks wrote, the message is delivered, nothing stays tracked, no temp dir is left.
+
+   What "valid" assumes: the validator is an oracle (vinit/vadd/vfinal, the C14 validator);
+   it sees only chunks without file info (the main snapshot file). External files carry no
+   checksum: for them the theorem says the final bytes are the concatenation of the
+   delivered chunk data, whatever it is (KNOWN-FINDING EXT-FILE-CORRUPTION-UNDETECTED).
+   That the sender's chunks replay to the source files: sender_chunks_replay_to_source. *)
+Theorem finalize_iff_complete_valid_sequence :
+  forall D dapp V vinit vadd vfinal my_did gc_tick timeout max_slots,
+    (forall (ops : list (op D)) (st : state D V) k fd,
+        run D dapp V vinit vadd vfinal drop_stream_on_invalid_chunk first_chunk_validated_before_discard
+            my_did gc_tick timeout max_slots init ops = Some st ->
+        alookup key_eqb k (s_finals st) = Some fd ->
+        exists acc, subseq acc (chunks_of D ops) /\
+                    complete D dapp V vinit vadd vfinal my_did k acc fd) /\
+    (forall (ops0 : list (op D)) (st st' : state D V) m0 d0 r ops v' files',
+        run D dapp V vinit vadd vfinal drop_stream_on_invalid_chunk first_chunk_validated_before_discard
+            my_did gc_tick timeout max_slots init ops0 = Some st ->
+        clean D V max_slots st m0 ->
+        delivers D my_did m0 1 r ops ->
+        count_ticks D ops < timeout ->
+        same_stream D my_did m0 ((m0, d0) :: r) -> ids_from D 0 ((m0, d0) :: r) -> last_only D ((m0, d0) :: r) ->
+        vfold D V vadd vinit ((m0, d0) :: r) = Some v' -> vfinal v' = true ->
+        replay D dapp [] ((m0, d0) :: r) = Some files' ->
+        run D dapp V vinit vadd vfinal drop_stream_on_invalid_chunk first_chunk_validated_before_discard
+            my_did gc_tick timeout max_slots st (OAdd (m0, d0) :: ops) = Some st' ->
+        finalized_as D V st' m0 (fileinfos D [] ((m0, d0) :: r)) files').
+Proof. exact finalize_iff_complete_valid_sequence_gen. Qed.
+Print Assumptions finalize_iff_complete_valid_sequence.
 
 (* over every run from the initial state: the delivered InstallSnapshot messages are, in
    order, exactly the flag files of the final directories; one final directory per snapshot *)
@@ -207,3 +259,30 @@ Example stalled_witness :
          first_chunk_validated_before_discard 7 snapshot_gc_tick 20 128 init
          (OAdd (ex_meta 0 0 [47; 115] false, [1; 2]) :: repeat OTick 30)) = Some (0%nat, 0%nat).
 Proof. vm_compute. split; reflexivity. Qed.
+
+(* non-vacuity of finalize_iff_complete_valid_sequence (IF part): ex_stream delivered with a
+   tick, an out-of-order chunk, a duplicate and a chunk of another snapshot in between
+   satisfies [delivers], and the run finalises the two files *)
+Definition ex_c (i : nat) : chunk bytes := nth i ex_stream (ex_meta 9 9 [] false, []).
+Definition ex_other : chunk bytes :=
+  (mkCMeta 1 1 5 0 1 2 101 3 [47; 122] 3 7 0 2 false (mkSFile [] 0 0 []) transport_bin_version 0 false, [9]).
+Definition ex_noisy : list (op bytes) :=
+  [OTick; OAdd (ex_c 2); OAdd (ex_c 1); OAdd (ex_c 1); OAdd ex_other; OAdd (ex_c 2)].
+Example delivers_witness :
+  delivers bytes 7 (fst (ex_c 0)) 1 [ex_c 1; ex_c 2] ex_noisy /\
+  count_ticks bytes ex_noisy < snapshot_chunk_timeout_tick /\
+  option_map (fun st => (map (fun kf => (fst kf, fd_files (snd kf))) (s_finals st), length (s_out st)))
+    (run bytes (@app N) N 0 toy_vadd (fun _ => true) drop_stream_on_invalid_chunk
+         first_chunk_validated_before_discard 7 snapshot_gc_tick snapshot_chunk_timeout_tick 128 init
+         (OAdd (ex_c 0) :: ex_noisy))
+  = Some ([((1, 1, 100), [([115], [1; 2; 3]); ([120], [7; 8])])], 1%nat).
+Proof.
+  split; [|split; [vm_compute; reflexivity|vm_compute; reflexivity]].
+  unfold ex_noisy.
+  apply dl_noise; [exact I|].
+  apply dl_noise; [simpl; right; right; right; split; [discriminate|left; discriminate]|].
+  apply dl_chunk. simpl N.add.
+  apply dl_noise; [simpl; right; right; right; split; [discriminate|left; discriminate]|].
+  apply dl_noise; [simpl; left; discriminate|].
+  apply dl_chunk. apply dl_done.
+Qed.
